@@ -38,10 +38,15 @@ What is proved here (**partial**):
   the fixed-width one (`semW_eq_sem`, `semW_low_bits`), and their assembly `C01_straightline` (end of
   this file).
 
-NOT proved: `C01_statement` for all programs – `if` / `for` (unrolled by `ast2ast`, which has no Lean
-model; the guarded assignments `d = b if c else d` it leaves for an `if` read their own target and are
-outside `straightLine`), tuples, `Qchar`, subscripts, and the rejection half; those are tied to the code by the
-correspondence and the oracle of `harness/c01.py` only.
+* the **structured types** - tuples (hence `Qlist`, `Qmatrix`), constant-index subscript chains, `Qchar`:
+  `C01_expr_struct`, `C01_body_struct`, `C01_straightline_struct` against the widened semantics
+  `QV.Sem.semT` / `semXT` (`QV/Model/SemT.lean`, `SemXT.lean`), which extend `semW` / `sem`
+  (`semT_extends_semW`).
+
+NOT proved: `C01_statement` for all programs – guarded assignments over the structured types (the `if` / `for`
+theorems `C01_if` / `C01_for` are stated for bool / Qint), the sites where the library uses a `Qchar` as an
+8-bit integer (`Sem.wellT`), builtins and variable subscripts (expanded by `ast2ast` before the translator),
+and the rejection half; those are tied to the code by the correspondence and the oracle of `harness/c01.py` only.
 -/
 namespace QV.C01
 open QV QV.Arith QV.Front
